@@ -151,6 +151,9 @@ Definition switch_step (ml : iter -> list frame -> bytes -> outcome bytes)
            | _ => Err
            end
     | _ =>
+      (* a closing root right after the value the iterator stood on (the iterators
+         ParsedJson.ForEach hands out): done (fix F20) *)
+      if negb is_open && negb (match out with [] => true | _ => false end) then Ok (rev out) else
       let i0 := if is_open then set_i i (i_off i) 0 (i_cur i) (i_t i) else i in
       do r <- advance_into pj i0;
       ml (fst r) (FRoot :: stack) out
